@@ -1,18 +1,699 @@
-//! C20 — placeholder, replaced below.
+//! C20 — the executable separates data from diagnostics and signals failure by exit code.
+//! Process level: the real binary (real main, real std stdio) as a child, with the results
+//! of read/write/writev on fds 0-2 scripted by the LD_PRELOAD shim, and preset hostile sinks.
+
 use super::{Budget, Property, ShrinkCaps};
 use crate::case::*;
 use crate::common::*;
+use crate::driver::verif_root;
+use crate::gen::*;
 use crate::rng::Rng;
+use crate::run::*;
+use crate::world::*;
+use std::io::Read;
+use std::path::PathBuf;
+use std::process::{Command, Stdio};
+use std::time::{Duration, Instant};
 
 pub struct C20;
 
+fn errno_name(k: ErrKind) -> &'static str {
+    match k {
+        ErrKind::StorageFull => "ENOSPC",
+        ErrKind::BrokenPipe => "EPIPE",
+        ErrKind::WouldBlock => "EAGAIN",
+        ErrKind::PermissionDenied => "EACCES",
+        ErrKind::ConnectionReset => "ECONNRESET",
+        ErrKind::TimedOut => "ETIMEDOUT",
+        _ => "EIO",
+    }
+}
+
+#[derive(Debug, Default)]
+struct Child {
+    status: Option<i32>,
+    timed_out: bool,
+    out: Vec<u8>,
+    err: Vec<u8>,
+    /// (fd, op, asked, at, result, errno)
+    log: Vec<(i32, char, usize, usize, i64, i32)>,
+}
+
+impl Child {
+    fn fatal_on(&self, fd: i32) -> Option<usize> {
+        self.log
+            .iter()
+            .find(|l| l.0 == fd && l.4 == -1 && l.5 != libc::EINTR)
+            .map(|l| l.3)
+    }
+    fn eintrs(&self) -> usize {
+        self.log.iter().filter(|l| l.4 == -1 && l.5 == libc::EINTR).count()
+    }
+    fn shorts(&self) -> usize {
+        self.log.iter().filter(|l| l.4 >= 0 && (l.4 as usize) < l.2 && l.4 > 0).count()
+    }
+    fn describe(&self) -> String {
+        format!(
+            "status {:?}{} stdout {} stderr {}",
+            self.status,
+            if self.timed_out { " (timed out)" } else { "" },
+            show(&self.out),
+            show(&self.err)
+        )
+    }
+}
+
+fn plan_text(case: &Case, logpath: &std::path::Path) -> String {
+    let mut s = String::new();
+    s.push_str(&format!("log {}\n", logpath.display()));
+    let lim = |v: &[usize]| v.iter().map(ToString::to_string).collect::<Vec<_>>().join(",");
+    let ei = |v: &[(usize, u32)]| v.iter().map(|(o, c)| format!("{o}:{c}")).collect::<Vec<_>>().join(" ");
+    if !case.delivery.chunks.is_empty() {
+        s.push_str(&format!("limits 0 {}\n", lim(&case.delivery.chunks)));
+    }
+    if !case.delivery.eintr.is_empty() {
+        s.push_str(&format!("eintr 0 {}\n", ei(&case.delivery.eintr)));
+    }
+    if let Some(f) = &case.rfault {
+        s.push_str(&format!(
+            "fail 0 {} {} {}\n",
+            f.at,
+            errno_name(f.kind),
+            if f.sticky { "sticky" } else { "recovers" }
+        ));
+    }
+    for (fd, p) in [(1, &case.out), (2, &case.err)] {
+        if !p.short.is_empty() {
+            s.push_str(&format!("limits {fd} {}\n", lim(&p.short)));
+        }
+        if !p.eintr.is_empty() {
+            s.push_str(&format!("eintr {fd} {}\n", ei(&p.eintr)));
+        }
+        if let Some(f) = &p.fail {
+            s.push_str(&format!(
+                "fail {fd} {} {} {}\n",
+                f.at,
+                errno_name(f.kind),
+                if f.sticky { "sticky" } else { "recovers" }
+            ));
+        }
+    }
+    s
+}
+
+#[derive(Clone, Copy, PartialEq, Eq, Debug)]
+enum Preset {
+    Files,
+    DevFull,
+    ClosedPipe,
+    DrainedPipe,
+}
+
+fn bin_path() -> PathBuf {
+    verif_root().join("target/jawk-bin/release/jawk")
+}
+
+fn shim_path() -> PathBuf {
+    verif_root().join("shim/iofault.so")
+}
+
+fn spawn(case: &Case, input: &[u8], with_shim: bool, preset: Preset, ctx: &mut Ctx) -> Result<Child, String> {
+    let dir = ctx.tmpdir.clone();
+    let tag = ctx.fresh_path("p");
+    let stem = tag.file_stem().unwrap().to_string_lossy().to_string();
+    let inp = dir.join(format!("{stem}.in"));
+    let outp = dir.join(format!("{stem}.out"));
+    let errp = dir.join(format!("{stem}.err"));
+    let logp = dir.join(format!("{stem}.log"));
+    let planp = dir.join(format!("{stem}.plan"));
+    std::fs::write(&inp, input).map_err(|e| e.to_string())?;
+    let mut cmd = Command::new(bin_path());
+    cmd.args(case.argv());
+    cmd.stdin(std::fs::File::open(&inp).map_err(|e| e.to_string())?);
+    cmd.stderr(std::fs::File::create(&errp).map_err(|e| e.to_string())?);
+    cmd.env_remove("RUST_BACKTRACE");
+    let mut drain: Option<std::process::ChildStdout> = None;
+    match preset {
+        Preset::Files => {
+            cmd.stdout(std::fs::File::create(&outp).map_err(|e| e.to_string())?);
+        }
+        Preset::DevFull => {
+            cmd.stdout(
+                std::fs::OpenOptions::new()
+                    .write(true)
+                    .open("/dev/full")
+                    .map_err(|e| e.to_string())?,
+            );
+        }
+        Preset::ClosedPipe => {
+            let mut fds = [0i32; 2];
+            // SAFETY: plain pipe(2) call with a valid two-element array
+            if unsafe { libc::pipe2(fds.as_mut_ptr(), libc::O_CLOEXEC) } != 0 {
+                return Err("pipe failed".into());
+            }
+            // SAFETY: fds are freshly created and owned here
+            unsafe {
+                libc::close(fds[0]);
+            }
+            use std::os::fd::FromRawFd;
+            // SAFETY: fds[1] is a valid, owned descriptor
+            let w = unsafe { std::fs::File::from_raw_fd(fds[1]) };
+            cmd.stdout(w);
+        }
+        Preset::DrainedPipe => {
+            cmd.stdout(Stdio::piped());
+        }
+    }
+    if with_shim {
+        std::fs::write(&planp, plan_text(case, &logp)).map_err(|e| e.to_string())?;
+        cmd.env("LD_PRELOAD", shim_path());
+        cmd.env("IOFAULT_PLAN", &planp);
+    }
+    let mut child = cmd.spawn().map_err(|e| format!("cannot spawn {}: {e}", bin_path().display()))?;
+    if preset == Preset::DrainedPipe {
+        drain = child.stdout.take();
+    }
+    let mut c = Child::default();
+    let reader = drain.map(|mut d| {
+        std::thread::spawn(move || {
+            let mut v = Vec::new();
+            let _ = d.read_to_end(&mut v);
+            v
+        })
+    });
+    let start = Instant::now();
+    loop {
+        match child.try_wait() {
+            Ok(Some(st)) => {
+                c.status = st.code();
+                break;
+            }
+            Ok(None) => {
+                if start.elapsed() > Duration::from_secs(20) {
+                    let _ = child.kill();
+                    let _ = child.wait();
+                    c.timed_out = true;
+                    break;
+                }
+                std::thread::sleep(Duration::from_micros(300));
+            }
+            Err(e) => return Err(e.to_string()),
+        }
+    }
+    c.out = match reader {
+        Some(h) => h.join().unwrap_or_default(),
+        None => std::fs::read(&outp).unwrap_or_default(),
+    };
+    c.err = std::fs::read(&errp).unwrap_or_default();
+    if with_shim {
+        let text = std::fs::read_to_string(&logp).unwrap_or_default();
+        for l in text.lines() {
+            let p: Vec<&str> = l.split(' ').collect();
+            if p.len() == 7 {
+                c.log.push((
+                    p[1].parse().unwrap_or(-1),
+                    p[2].chars().next().unwrap_or('?'),
+                    p[3].parse().unwrap_or(0),
+                    p[4].parse().unwrap_or(0),
+                    p[5].parse().unwrap_or(0),
+                    p[6].parse().unwrap_or(0),
+                ));
+            }
+        }
+    }
+    for p in [&inp, &outp, &errp, &logp, &planp] {
+        let _ = std::fs::remove_file(p);
+    }
+    ctx.stats.runs += 1;
+    ctx.stats.events += c.log.len() as u64;
+    ctx.stats.bytes_out += (c.out.len() + c.err.len()) as u64;
+    ctx.stats.fault("process.read.interrupted+write.interrupted", c.eintrs() as u64);
+    ctx.stats.fault("process.short-transfer", c.shorts() as u64);
+    // abstract trace of the child: (fd, op, result class) run-length compressed + status class
+    let mut t: Vec<u8> = Vec::new();
+    let mut last = (0i32, ' ', 0u8);
+    for l in &c.log {
+        let cls = if l.4 == -1 {
+            if l.5 == libc::EINTR {
+                2
+            } else {
+                3
+            }
+        } else if l.4 == 0 {
+            1
+        } else {
+            0
+        };
+        if (l.0, l.1, cls) != last {
+            t.push(l.0 as u8);
+            t.push(l.1 as u8);
+            t.push(cls);
+            last = (l.0, l.1, cls);
+        }
+    }
+    t.push(match c.status {
+        Some(0) => 0,
+        Some(_) => 1,
+        None => 2,
+    });
+    t.push(preset as u8);
+    ctx.fold_trace(crate::rng::hash_bytes(&t));
+    Ok(c)
+}
+
+const CLAP_INVALID: &[&[&str]] = &[
+    &["--no-such-option"],
+    &["--take=abc"],
+    &["-o", "yaml"],
+    &["--on-error=never"],
+    &["--skip=-1"],
+    &["--style=ugly"],
+];
+
+const GO_INVALID: &[&[&str]] = &[
+    &["--select", "(zz_nope . 1)=x"],
+    &["--filter=(size ."],
+    &["--sort-by=.n=UP"],
+    &["--set", "novalue"],
+    &["--select", "(size . . .)=x"],
+    &["--group-by=.g xx"],
+    &["--split-by=((.arr)"],
+];
+
 impl Property for C20 {
-    fn id(&self) -> &'static str { "C20" }
-    fn level(&self) -> &'static str { "exploration" }
-    fn rule(&self) -> &'static str { "" }
-    fn assumptions(&self) -> Vec<String> { vec![] }
-    fn shrink_caps(&self) -> ShrinkCaps { ShrinkCaps { drop_pieces: true, simplify_records: false, shrink_raw: true, drop_opts: true } }
-    fn budget(&self, _tier: Tier) -> Budget { Budget { seconds: 5, max_cases: 10 } }
-    fn generate(&self, _rng: &mut Rng, _tier: Tier) -> Case { Case::new("C20", "todo") }
-    fn check(&self, _case: &Case, _ctx: &mut Ctx) -> Option<Violation> { None }
+    fn id(&self) -> &'static str {
+        "C20"
+    }
+    fn level(&self) -> &'static str {
+        "exploration"
+    }
+    fn process_level(&self) -> bool {
+        true
+    }
+    fn rule(&self) -> &'static str {
+        "A scenario = the real jawk executable (release build of the working tree, guard off) run as child processes on a generated clean or noisy stream (occasionally > 16 KiB of output) x one of the four --on-error policies x a pipeline of any class x row separators with and without a newline x {valid configuration, configuration rejected by go, configuration rejected by clap}, with stdin/stdout/stderr on regular files in /dev/shm. Families: 'valid'/'invalid' (fault-free child vs in-process jawk::go for the same argv and input: fd 1 must carry exactly go's stdout sink, fd 2 exactly go's stderr sink plus, on failure, a message; exit status 0 iff go returned Ok); 'read-fault' / 'write-fault' / 'err-fault' (LD_PRELOAD shim fails read(0) / write(1) / write(2) at a seeded byte offset with EIO, ENOSPC, EPIPE, EAGAIN, EACCES..., sticky or recovering, after seeded EINTR and short transfers); 'transparent' (EINTR/short only); 'preset' (/dev/full, a pipe whose read end is closed, a pipe drained by the harness). evaluations = child processes + in-process reference runs; non-trivial = a planned fault was delivered according to the shim's own event log, or diagnostics/rows had to be routed (noisy stream under stderr/stdout policy), or a hostile preset sink received output; distinct = distinct abstract traces (shim event kinds per fd, exit class, preset)."
+    }
+    fn assumptions(&self) -> Vec<String> {
+        vec![
+            "regular files never short-read or short-write, so without the shim the kernel adds no nondeterminism; the drained-pipe preset uses a real pipe and a reader thread and is judged on content only".into(),
+            "the shim interposes libc read/write/writev for fds 0-2 only; file arguments (fds >= 3) are real and fault-free".into(),
+            "child wall-clock limit 20 s is a harness bound only".into(),
+            "in-process reference uses the same source tree built with the verification guard on".into(),
+        ]
+    }
+    fn shrink_caps(&self) -> ShrinkCaps {
+        ShrinkCaps {
+            drop_pieces: true,
+            simplify_records: true,
+            shrink_raw: false,
+            drop_opts: true,
+        }
+    }
+    fn budget(&self, tier: Tier) -> Budget {
+        match tier {
+            Tier::Quick => Budget {
+                seconds: 30,
+                max_cases: 20_000,
+            },
+            Tier::Thorough => Budget {
+                seconds: 600,
+                max_cases: 200_000,
+            },
+        }
+    }
+
+    fn generate(&self, rng: &mut Rng, tier: Tier) -> Case {
+        let family = match rng.below(20) {
+            0..=4 => "valid",
+            5..=6 => "invalid",
+            7..=9 => "read-fault",
+            10..=14 => "write-fault",
+            15 => "err-fault",
+            16..=17 => "transparent",
+            _ => "preset",
+        };
+        let mut case = Case::new("C20", family);
+        let big = rng.chance(1, 8);
+        let noisy = rng.chance(1, 2);
+        let w = StreamWish {
+            min_records: if big { 100 } else { 0 },
+            max_records: if big {
+                300
+            } else if tier == Tier::Thorough {
+                30
+            } else {
+                10
+            },
+            noise_eighths: if noisy { 3 } else { 0 },
+            allow_touch: true,
+            spell_level: 1,
+            allow_big: true,
+            schema_only: false,
+        };
+        case.pieces = gen_stream(rng, &w);
+        let mut wish = PipeWish::any();
+        wish.allow_corpus = false;
+        let mut pipe = gen_pipe(rng, &wish);
+        if rng.chance(1, 3) {
+            pipe.opts.retain(|o| !o[0].starts_with("--row-seperator"));
+            pipe.opts.push(vec![format!("--row-seperator={}", rng.pick(&[",", ";", " | ", ""]))]);
+        }
+        case.opts = pipe.opts;
+        let pol = *rng.pick(&[Policy::Ignore, Policy::Panic, Policy::Stderr, Policy::Stderr, Policy::Stdout]);
+        case.opts.push(policy_opt(pol));
+        let len = case.stream().len();
+        match family {
+            "invalid" => {
+                let bad: &[&str] = if rng.chance(1, 2) {
+                    CLAP_INVALID[rng.below(CLAP_INVALID.len())]
+                } else {
+                    GO_INVALID[rng.below(GO_INVALID.len())]
+                };
+                if bad[0].starts_with("--group-by") {
+                    case.opts.retain(|o| !o[0].starts_with("--group-by") && o[0] != "--merge");
+                }
+                if bad[0].starts_with("--split-by") || bad[0].starts_with("--filter") {
+                    let key = bad[0].split('=').next().unwrap().to_string();
+                    case.opts.retain(|o| !o[0].starts_with(&key));
+                }
+                case.opts.push(bad.iter().map(ToString::to_string).collect());
+            }
+            "read-fault" => {
+                case.delivery = gen_delivery(rng, len);
+                case.delivery.whole = false;
+                case.rfault = Some(Fault {
+                    at: rng.below(len + 1),
+                    kind: *rng.pick(&ErrKind::READ_KINDS),
+                    sticky: rng.chance(1, 2),
+                });
+            }
+            "write-fault" => {
+                case.out = gen_sink_garnish(rng, 200);
+                case.set("wfrac", rng.below(1000) as i64);
+                case.out.fail = Some(Fault {
+                    at: 0,
+                    kind: *rng.pick(&ErrKind::WRITE_KINDS),
+                    sticky: rng.chance(1, 2),
+                });
+            }
+            "err-fault" => {
+                case.set("wfrac", rng.below(1000) as i64);
+                case.err.fail = Some(Fault {
+                    at: 0,
+                    kind: *rng.pick(&ErrKind::WRITE_KINDS),
+                    sticky: rng.chance(1, 2),
+                });
+            }
+            "transparent" => {
+                case.delivery = gen_delivery(rng, len);
+                case.delivery.whole = false;
+                if case.delivery.chunks.is_empty() {
+                    case.delivery.chunks = vec![1, 7, 3];
+                }
+                if case.delivery.eintr.is_empty() {
+                    case.delivery.eintr.push((rng.below(len + 1), 2));
+                }
+                case.out = gen_sink_garnish(rng, 300);
+                if case.out.short.is_empty() {
+                    case.out.short = vec![3, 1];
+                }
+                case.err = gen_sink_garnish(rng, 100);
+            }
+            "preset" => {
+                case.set("preset", rng.range(1, 3) as i64);
+            }
+            _ => {}
+        }
+        case
+    }
+
+    #[allow(clippy::too_many_lines)]
+    fn check(&self, case: &Case, ctx: &mut Ctx) -> Option<Violation> {
+        if !bin_path().exists() || !shim_path().exists() {
+            ctx.harness_error = Some(format!(
+                "process level needs {} and {} (run ./check setup)",
+                bin_path().display(),
+                shim_path().display()
+            ));
+            return None;
+        }
+        let input = case.stream();
+        let class = classify(&case.opts);
+        let pol = policy_of(&case.opts);
+        // in-process reference of the same argv and input
+        let g = ctx.exec(ref_spec(case, &input));
+        if matches!(g.outcome, Outcome::Panic(..) | Outcome::Abort(_)) {
+            ctx.stats.invalid = true;
+            ctx.jawk_panic = None;
+            return None;
+        }
+        macro_rules! child {
+            ($shim:expr, $preset:expr) => {
+                match spawn(case, &input, $shim, $preset, ctx) {
+                    Ok(c) => c,
+                    Err(e) => {
+                        ctx.harness_error = Some(e);
+                        return None;
+                    }
+                }
+            };
+        }
+        // fault-free child
+        let f = child!(false, Preset::Files);
+        if f.timed_out {
+            return viol("C20.hang", format!("fault-free child did not finish within 20 s: {}", f.describe()));
+        }
+        let noisy_routed = case.pieces.iter().any(|p| p.kind == Kind::Garbage) && matches!(pol, Policy::Stderr | Policy::Stdout);
+        match &g.outcome {
+            Outcome::Clap(_) => {
+                ctx.stats.fault("config.rejected-by-clap", 1);
+                ctx.stats.nontrivial = true;
+                if f.status == Some(0) || f.status.is_none() {
+                    return viol("C20.exit-fail", format!("argv rejected by clap but {}", f.describe()));
+                }
+                if !f.out.is_empty() {
+                    return viol("C20.exit-fail", format!("usage error wrote to stdout: {}", f.describe()));
+                }
+                if f.err.is_empty() {
+                    return viol("C20.exit-fail", format!("usage error without a message on stderr: {}", f.describe()));
+                }
+                return None;
+            }
+            Outcome::Ok => {
+                if noisy_routed {
+                    ctx.stats.nontrivial = true;
+                    ctx.stats.fault("diagnostics-routed", 1);
+                }
+                if f.status != Some(0) {
+                    return viol("C20.exit-ok", format!("go succeeds in-process but the executable: {}", f.describe()));
+                }
+                if f.out != g.obs.stdout {
+                    let rule = if pol == Policy::Stderr && f.out.windows(6).any(|w| w == b"error:") && !g.obs.stdout.windows(6).any(|w| w == b"error:") {
+                        "C20.diag-on-stderr"
+                    } else {
+                        "C20.rows-on-stdout"
+                    };
+                    return viol(
+                        rule,
+                        format!(
+                            "standard output of the executable differs from go's stdout sink (first difference at byte {}): {} vs {}",
+                            common_prefix(&f.out, &g.obs.stdout),
+                            show(&f.out),
+                            show(&g.obs.stdout)
+                        ),
+                    );
+                }
+                if f.err != g.obs.stderr {
+                    return viol(
+                        "C20.diag-on-stderr",
+                        format!(
+                            "standard error of the executable differs from go's stderr sink: {} vs {}",
+                            show(&f.err),
+                            show(&g.obs.stderr)
+                        ),
+                    );
+                }
+            }
+            Outcome::Err(msg) => {
+                ctx.stats.fault("go-returns-error", 1);
+                ctx.stats.nontrivial = true;
+                if f.status == Some(0) || f.status.is_none() {
+                    return viol("C20.exit-fail", format!("go fails in-process ({msg}) but the executable: {}", f.describe()));
+                }
+                if f.out != g.obs.stdout {
+                    return viol(
+                        "C20.rows-on-stdout",
+                        format!("failing run: standard output differs from go's stdout sink: {} vs {}", show(&f.out), show(&g.obs.stdout)),
+                    );
+                }
+                if !f.err.starts_with(&g.obs.stderr) || f.err.len() <= g.obs.stderr.len() {
+                    return viol(
+                        "C20.exit-fail",
+                        format!("failing run: standard error must carry go's diagnostics plus a message: {} vs sink {}", show(&f.err), show(&g.obs.stderr)),
+                    );
+                }
+            }
+            _ => {}
+        }
+        // faulted children
+        let mut faulted = case.clone();
+        match case.family.as_str() {
+            "write-fault" => {
+                if f.out.is_empty() {
+                    ctx.stats.probe("write-fault scenario without output");
+                    return None;
+                }
+                if let Some(ff) = faulted.out.fail.as_mut() {
+                    if ff.at == 0 {
+                        ff.at = (case.param("wfrac") as usize * f.out.len()) / 1000;
+                    }
+                }
+            }
+            "err-fault" => {
+                if f.err.is_empty() {
+                    ctx.stats.probe("err-fault scenario without diagnostics");
+                    return None;
+                }
+                if let Some(ff) = faulted.err.fail.as_mut() {
+                    if ff.at == 0 {
+                        ff.at = (case.param("wfrac") as usize * f.err.len()) / 1000;
+                    }
+                }
+            }
+            "read-fault" | "transparent" => {}
+            "preset" => {
+                let preset = match case.param("preset") {
+                    1 => Preset::DevFull,
+                    2 => Preset::ClosedPipe,
+                    _ => Preset::DrainedPipe,
+                };
+                let r = child!(false, preset);
+                ctx.stats.fault(&format!("preset.{preset:?}"), 1);
+                if r.timed_out {
+                    return viol("C20.hang", format!("child with {preset:?} stdout did not finish: {}", r.describe()));
+                }
+                match preset {
+                    Preset::DrainedPipe => {
+                        ctx.stats.nontrivial = true;
+                        if r.status != f.status || r.out != f.out || r.err != f.err {
+                            return viol(
+                                "C20.transparent",
+                                format!("stdout on a pipe changes the behaviour: {} vs on a file {}", r.describe(), f.describe()),
+                            );
+                        }
+                    }
+                    _ => {
+                        if !f.out.is_empty() {
+                            ctx.stats.nontrivial = true;
+                            if r.status == Some(0) {
+                                return viol(
+                                    "C20.no-silent-loss",
+                                    format!(
+                                        "stdout is {preset:?} and {} bytes of output were lost, but the exit status is 0 (stderr {})",
+                                        f.out.len(),
+                                        show(&r.err)
+                                    ),
+                                );
+                            }
+                            if r.status.is_none() {
+                                return viol("C20.exit-fail", format!("killed by a signal with {preset:?} stdout"));
+                            }
+                            if r.err.is_empty() {
+                                return viol("C20.exit-fail", format!("stdout is {preset:?}: non-zero exit but no message on stderr"));
+                            }
+                        } else if r.status != f.status {
+                            return viol(
+                                "C20.exit-ok",
+                                format!("no output was produced, yet the exit status with {preset:?} stdout is {:?} instead of {:?}", r.status, f.status),
+                            );
+                        }
+                    }
+                }
+                return None;
+            }
+            _ => return None,
+        }
+        let r = match spawn(&faulted, &input, true, Preset::Files, ctx) {
+            Ok(c) => c,
+            Err(e) => {
+                ctx.harness_error = Some(e);
+                return None;
+            }
+        };
+        if r.timed_out {
+            return viol("C20.hang", format!("child under faults did not finish within 20 s: {}", r.describe()));
+        }
+        if r.status == Some(97) {
+            return viol("C20.stops", format!("more than 64 calls on a descriptor after a sticky failure: {}", r.describe()));
+        }
+        let rd = r.fatal_on(0);
+        let wd = r.fatal_on(1);
+        let ed = r.fatal_on(2);
+        if let Some(at) = rd {
+            ctx.stats.fault("process.read.failed", 1);
+            if at == 0 {
+                ctx.stats.probe("read fault at offset 0");
+            }
+        }
+        if wd.is_some() {
+            ctx.stats.fault("process.write.failed", 1);
+            if has_opt(&case.opts, "--row-seperator") {
+                ctx.stats.probe("write fault with a non-default row separator");
+            }
+        }
+        if ed.is_some() {
+            ctx.stats.fault("process.write.failed.stderr", 1);
+        }
+        if rd.is_some() || wd.is_some() || ed.is_some() || (case.family == "transparent" && r.eintrs() + r.shorts() > 0) {
+            ctx.stats.nontrivial = true;
+        }
+        if r.status.is_none() {
+            return viol("C20.exit-fail", format!("child killed by a signal under faults: {}", r.describe()));
+        }
+        if r.status == Some(0) && r.out != f.out {
+            return viol(
+                "C20.no-silent-loss",
+                format!(
+                    "exit status 0 but standard output is not the fault-free output ({} of {} bytes arrived; read fault {:?}, write fault {:?}): {} vs {}",
+                    r.out.len(),
+                    f.out.len(),
+                    rd,
+                    wd,
+                    show(&r.out),
+                    show(&f.out)
+                ),
+            );
+        }
+        if rd.is_none() && wd.is_none() && ed.is_none() {
+            if r.status != f.status || r.out != f.out || r.err != f.err {
+                return viol(
+                    "C20.transparent",
+                    format!("only EINTR/short transfers were delivered but the run differs: {} vs {}", r.describe(), f.describe()),
+                );
+            }
+            return None;
+        }
+        if rd.is_some() || wd.is_some() {
+            if r.status == Some(0) {
+                return viol(
+                    "C20.exit-fail",
+                    format!("read fault {rd:?} / write fault {wd:?} delivered but exit status 0: {}", r.describe()),
+                );
+            }
+            if r.err.is_empty() {
+                return viol("C20.exit-fail", format!("failure without a message on stderr: {}", r.describe()));
+            }
+        }
+        if (wd.is_some() || class != Class::Buffering) && !is_prefix(&r.out, &f.out) {
+            return viol(
+                "C20.rows-on-stdout",
+                format!(
+                    "under faults (read {rd:?}, write {wd:?}, stderr {ed:?}) standard output is not a prefix of the fault-free output: {} vs {}",
+                    show(&r.out),
+                    show(&f.out)
+                ),
+            );
+        }
+        None
+    }
 }
